@@ -419,7 +419,7 @@ class Fn:
         while a.get('kind') in ('CStyleCastExpr', 'ImplicitCastExpr'):
             a = strip(a['inner'][0])
         if a.get('kind') != 'DeclRefExpr':
-            raise CTransError('%s: struct argument that is not a variable' % self.name)
+            raise CTransError('%s: struct argument that is not a variable (%s)' % (self.name, a.get('kind')))
         return a['referencedDecl']['name']
 
     def call_args(self, sig, argnodes):
@@ -748,6 +748,14 @@ class Fn:
             return any(isinstance(c, dict) and walk(c) for c in n.get('inner', []))
         return any(walk(x) for x in stmts)
 
+    def scoped(self, thunk):
+        """translate a nested block: the aliases / pointer locals / local arrays it declares go out of scope afterwards"""
+        snap = (dict(self.malias), dict(self.salias), dict(self.salias_len), dict(self.ptrs), dict(self.arrays))
+        try:
+            return thunk()
+        finally:
+            self.malias, self.salias, self.salias_len, self.ptrs, self.arrays = snap
+
     def tup(self, names):
         names = [V(x) for x in names]
         return names[0] if len(names) == 1 else '(' + ', '.join(names) + ')'
@@ -853,7 +861,7 @@ class Fn:
                 return self.seq(inner + rest, k_final, ind)
             if not outs:
                 return self.seq(rest, k_final, ind)
-            blk = self.seq(inner, lambda: self.tup(outs), ind + 1)
+            blk = self.scoped(lambda: self.seq(inner, lambda: self.tup(outs), ind + 1))
             return '%slet %s :=\n%s\n%s' % (pad, self.tup(outs), blk, self.seq(rest, k_final, ind))
         if k == 'DeclStmt':
             out = ''
@@ -878,7 +886,12 @@ class Fn:
                    strip(strip(init[0])['inner'][0]).get('referencedDecl', {}).get('name') == 'mzd_t_malloc':
                     self.sbuild = nm
                     continue
-                if dk == 'p:?' and init and nm in self.malias_pre:
+                def callee_of(x):
+                    x = strip(x)
+                    while x.get('kind') in ('CStyleCastExpr', 'ImplicitCastExpr'):
+                        x = strip(x['inner'][0])
+                    return strip(x['inner'][0]).get('referencedDecl', {}).get('name') if x.get('kind') == 'CallExpr' else None
+                if dk == 'p:?' and init and callee_of(init[0]) in ('mzd_init_window', 'mzd_init_window_const'):
                     out += self.decl_window(nm, init[0], pad)
                     continue
                 if dk == 'p:?' and init and self.fresh_matrix(nm, init[0]) is not None:
@@ -998,16 +1011,16 @@ class Fn:
             tl, el = self.body_list(then), self.body_list(els)
             c = self.boolean(cond)
             if self.has(tl + el, ('ReturnStmt', 'BreakStmt', 'ContinueStmt')):
-                return '%sif %s then\n%s\n%selse\n%s' % (pad, c, self.seq(tl + rest, k_final, ind + 1), pad,
-                                                         self.seq(el + rest, k_final, ind + 1))
+                return '%sif %s then\n%s\n%selse\n%s' % (pad, c, self.scoped(lambda: self.seq(tl + rest, k_final, ind + 1)), pad,
+                                                         self.scoped(lambda: self.seq(el + rest, k_final, ind + 1)))
             outs = [x for x in self.assigned(tl + el) if x in self.locals]
             if not outs:
                 return self.seq(rest, k_final, ind)
             t = self.tup(outs)
             ty = self.tup_type(outs)
             return '%slet %s : %s :=\n%s  if %s then\n%s\n%s  else\n%s\n%s' % (
-                pad, t, ty, pad, c, self.seq(tl, lambda: t, ind + 2), pad, self.seq(el, lambda: t, ind + 2),
-                self.seq(rest, k_final, ind))
+                pad, t, ty, pad, c, self.scoped(lambda: self.seq(tl, lambda: t, ind + 2)), pad,
+                self.scoped(lambda: self.seq(el, lambda: t, ind + 2)), self.seq(rest, k_final, ind))
         if k in ('WhileStmt', 'ForStmt'):
             if k == 'WhileStmt':
                 cond, body = s['inner'][0], s['inner'][1]
@@ -1059,7 +1072,7 @@ class Fn:
             if has_ret:
                 c = '(v__ret.isNone && %s)' % c
             self.loops.append(dict(t=t, inc=inc, brk=brk))
-            bodyt = self.seq(body_stmts + list(inc), lambda: t, ind + 2)
+            bodyt = self.scoped(lambda: self.seq(body_stmts + list(inc), lambda: t, ind + 2))
             self.loops.pop()
             lam = 'fun %s => ' % t if len(outs) == 1 else 'fun (%s : %s) => match %s with\n%s    | %s => ' % ('st', self.tup_type(outs), 'st', pad, t)
             loop = '%slet %s : %s := CLoop.loop %s\n%s    (%s%s)\n%s    (%s\n%s)\n%s    %s\n' % (
@@ -1903,6 +1916,13 @@ def catalogue(t):
       doc='solving with a given PLUQ factorisation; the triangular solves and the product are function parameters')
     F('m4ri/solve.c', '_mzd_solve_left', 'solveLeftTop', externs={'_mzd_pluq': PLUQ, 'mzd_pluq_solve_left': dict(mats=(0, 4), perms=(2, 3), ret='i', writes=(4,))},
       doc='mzd_solve_left: padding-row test, then PLUQ and the solve with the factorisation (function parameters)')
+    F('m4ri/echelonform.c', 'mzd_echelonize_pluq', 'echelonizePluq', fuels=['(v_A_nrows).toNat', '(v_A_ncols).toNat + 1'],
+      externs={'mzd_pluq': PLUQ, 'mzd_ple': PLUQ, 'mzd_trsm_upper_left': dict(mats=(0, 1), writes=(1,)),
+               'mzd_submatrix': dict(alts=[dict(null=(0,), mats=(1,), ret='mat', suffix='_new')]),
+               'mzd_copy': dict(alts=[dict(mats=(0, 1), writes=(0,))]),
+               'mzd_apply_p_right': dict(mats=(0,), perms=(1,), writes=(0,))},
+      doc='(reduced) row echelon form through PLUQ / PLE: the three r mod 64 cases of the back substitution, U := I, column '
+          'permutation on the first r rows; full = 0: L cleared, pivots written; rows below the rank zeroed')
     R, W = '(v_A_nrows).toNat', '(v_A_width).toNat'
     F('m4ri/mzd.c', 'mzd_find_pivot', 'mzdFindPivot', outparams=('r', 'c'),
       fuels=['(v_A_ncols).toNat + 1', R, '64', R, '64', W, R, '64', R, '64'])
